@@ -684,10 +684,14 @@ impl Regex {
             };
             raw_e.to_str(&mut re_cooked, 0);
             let inner = compile::compile_inner(&re_cooked, &options)?;
-            return Ok(Regex {
-                inner: RegexImpl::Wrap { inner, options },
-                named_groups: Arc::new(tree.named_groups),
-            });
+            // regex-automata does not count groups it can prove unused (e.g. `(a){0}`);
+            // only wrap when it sees every group, otherwise let the VM keep the numbering
+            if inner.captures_len() == info.end_group {
+                return Ok(Regex {
+                    inner: RegexImpl::Wrap { inner, options },
+                    named_groups: Arc::new(tree.named_groups),
+                });
+            }
         }
 
         let prog = compile(&info)?;
